@@ -54,6 +54,8 @@ type Universe struct {
 	tests bool
 
 	fnAlias map[string]*types.Func
+	// functions absent from the baseline symbol table (see flatten.go)
+	newFuncObjs map[*types.Func]bool
 	Renames []string
 
 	cg       *callgraph.Graph
@@ -218,6 +220,7 @@ func loadUniverseOverlay(name, repo, dir string, tests bool, overlay map[string]
 		}
 	}
 	u.computeRenames()
+	u.computeNewHelpers()
 	return u
 }
 
@@ -303,7 +306,7 @@ func (u *Universe) Fn(pkg, recv, name string) *ssa.Function {
 	if obj == nil {
 		return nil
 	}
-	return u.Prog.FuncValue(obj)
+	return flatRoot(u.Prog.FuncValue(obj))
 }
 
 // Decl returns the syntax of a declared function and the package holding it.
@@ -335,6 +338,12 @@ func (u *Universe) Pos(p token.Pos) string {
 func fnName(f *ssa.Function) string {
 	if f == nil {
 		return "<nil>"
+	}
+	// a new helper with a single owner goes by the owner's name (see flatten.go)
+	if flattenable[f] {
+		if owners := rootOwners(f); len(owners) == 1 {
+			return fnName(owners[0])
+		}
 	}
 	if f.Signature != nil && f.Signature.Recv() != nil {
 		t := f.Signature.Recv().Type()
